@@ -30,6 +30,9 @@ pub(super) enum QuorumError {
         total_voting_power: u64,
     },
 
+    #[error("commit contained more than one vote of validator `{validator}`")]
+    DuplicateVote { validator: tendermint::account::Id },
+
     #[error("commit contained an empty signature field for validator `{validator}`")]
     EmptySignature { validator: tendermint::account::Id },
 
@@ -113,6 +116,7 @@ pub(super) fn ensure_commit_has_quorum(
         .collect::<HashMap<_, _>>();
 
     let mut commit_voting_power = 0u64;
+    let mut validators_seen = std::collections::HashSet::new();
     for vote in &commit.signatures {
         // we only care about votes that are for the Commit.BlockId (ignore absent validators and
         // votes for nil)
@@ -130,6 +134,13 @@ pub(super) fn ensure_commit_has_quorum(
                 validator: *validator_address,
             });
         };
+
+        // every validator may contribute its voting power only once
+        if !validators_seen.insert(*validator_address) {
+            return Err(QuorumError::DuplicateVote {
+                validator: *validator_address,
+            });
+        }
 
         // verify validator exists in validator set
         let Some(validator) = validator_map.get(validator_address) else {
